@@ -76,7 +76,10 @@ def run(prop, tier, seed, replay=None):
             raise tlc.TLCFailure("canary trace (reversed result) was accepted by the judge")
     rep.notes["canaries_rejected"] = ncan
     nreads = sum(1 for t in traces[:nreal] for r in t if r["op"] in ("get", "count"))
-    distinct = {(r["backend"], repr(x)) for r in runs for x in r["trace"] if x["op"] != "load"}
+    def key(x):       # the sub-millisecond jitter and the UTC offsets of the window edges do not make a case distinct
+        w = x.get("w", {})
+        return repr((x["op"], x.get("lim"), w.get("hs"), w.get("s"), w.get("he"), w.get("e"), x.get("res", x.get("n"))))
+    distinct = {(r["backend"], key(x)) for r in runs for x in r["trace"] if x["op"] != "load"}
     rep.cov.update(traces_validated_against_impl=nreal, evaluations=nreads, distinct_nontrivial=len(distinct),
                    rule="bucket contents: all <=2-event contents on grid {0,4,8}x{0,2,8} ms with every window over edges {-5,0,1,4,7,8,13} ms (both/one/no edge) "
                         "and limits, plus random contents (<=4 events, scales 1/10/1000 ms, ~24h events, sub-ms jitter and random UTC offsets on the edges); "
